@@ -305,17 +305,14 @@ func c14udp(env *Env, out *sync.Mutex, rng *Rng, refresh bool, closers int) {
 		return fails >= 10
 	})
 	cw.Wait()
-	p.drain()
-	before := p.nall.Load()
+	// every close has returned: these sends must fail, and none of them may reach the peer (the
+	// oracle compares the data messages at the peer with the sends logged as successful)
 	for i := 0; i < 20; i++ {
 		a.sendData(rng)
 	}
 	a.sendTemplate()
 	p.drain()
 	extra := ""
-	if after := p.nall.Load(); after != before {
-		extra = fmt.Sprintf(" written-after-close=%d", after-before)
-	}
 	c14emit(env, out, "udp", scen, closers, a, p, panics.Load(), extra)
 }
 
